@@ -62,6 +62,8 @@ def run_case(case: dict) -> CaseResult:
     kind = case.get("kind", "history")
     if kind == "silent":
         return run_silent(case)
+    if kind == "early":
+        return run_early(case)
     from aioesphomeapi import api_pb2 as pb
 
     res = CaseResult()
@@ -318,6 +320,65 @@ def run_silent(case: dict) -> CaseResult:
     return res
 
 
+def run_early(case: dict) -> CaseResult:
+    """Peer requests that arrive while the hello/login exchange is still running (same chunk as the
+    HelloResponse/ConnectResponse, chunk cut anywhere): each is answered with the matching response."""
+    import base64
+
+    from aioesphomeapi import api_pb2 as pb
+
+    from vf.life import KEY
+    from vf.simnet import Env, make_client
+
+    res = CaseResult()
+    noise = bool(case.get("noise"))
+    env = Env(noise_key=KEY if noise else None)
+    cli = make_client(env, noise_psk=base64.b64encode(KEY).decode() if noise else None)
+    mk = {"ping": pb.PingRequest, "gettime": pb.GetTimeRequest, "discreq": pb.DisconnectRequest}
+    reqs = list(case["trailer"])
+    if "discreq" in reqs:
+        reqs = reqs[: reqs.index("discreq") + 1]
+    env.dev.hello_trailer_msgs = [mk[r]() for r in reqs]
+    env.dev.hello_cuts = case.get("cuts")
+    stops = []
+
+    async def on_stop(expected):
+        stops.append(expected)
+
+    async def main():
+        await cli.connect(on_stop=on_stop, login=bool(case.get("login", True)))
+        env.log("connected")
+        await cli.disconnect(force=True)
+
+    env.loop.sim_at(0, lambda: env.spawn("main", main()))
+    env.loop.horizon = START + 200
+    try:
+        env.run()
+    except IterationCap as e:
+        env.close()
+        raise HarnessError(f"C12 early: {e}") from e
+    expected = [{"ping": 8, "gettime": 37, "discreq": 6}[r] for r in reqs]
+    final_seq = next((e["seq"] for e in env.trace if e["kind"] == "connected"), 10**9)
+    wrote = [e["type"] for e in env.trace if e["kind"] == "rx" and e["seq"] < final_seq and e["type"] not in (1, 3)]
+    if wrote != expected:
+        res.violations.append(Violation(ID, "c12:early-peer-request:" + ("missing" if len(wrote) < len(expected) else "unexpected-write"),
+                                        f"requests {reqs} arrived with the hello answer; device decoded responses {wrote}, expected {expected}"))
+    if "discreq" in reqs:
+        closed = any(e["kind"] == "state" and e["value"].name == "CLOSED" for e in env.trace)
+        r = env.results.get("main")
+        if not closed or r is None or r[0] != "exc":
+            res.violations.append(Violation(ID, "c12:early-disconnect-request:not-closed", f"main={r and r[0]} closed={closed}"))
+        wseq = [e["seq"] for e in env.trace if e["kind"] == "rx" and e["type"] == 6]
+        cseq = [e["seq"] for e in env.trace if e["kind"] == "transport_close"]
+        if wseq and cseq and wseq[0] > cseq[0]:
+            res.violations.append(Violation(ID, "c12:disconnect-request:response-not-before-close", "early"))
+    res.classes = ["peer_request", "early"] + (["noise"] if noise else [])
+    res.nontrivial = True
+    res.info = {"trailer": reqs, "wrote": wrote}
+    env.close()
+    return res
+
+
 # ------------------------------------------------------------------ generators
 def undefined_ids():
     mx = max(defined_ids())
@@ -387,8 +448,15 @@ def _silent(draw, tier):
     return {"kind": "silent", "K": K, "noise": draw(st.booleans()), "frames": [[o, draw(undefined_ids())] for o in offs]}
 
 
+@st.composite
+def _early(draw, tier):
+    return {"kind": "early", "noise": draw(st.booleans()), "login": draw(st.booleans()),
+            "trailer": draw(st.lists(st.sampled_from(["ping", "gettime", "ping", "discreq"]), min_size=1, max_size=4)),
+            "cuts": sorted(set(draw(st.lists(st.integers(1, 60), max_size=3))))}
+
+
 def strategy(tier):
-    return st.one_of(_history(tier), _history(tier), _types(tier), _silent(tier))
+    return st.one_of(_history(tier), _history(tier), _history(tier), _types(tier), _silent(tier), _early(tier))
 
 
 def enumerated(tier):
@@ -404,4 +472,7 @@ def enumerated(tier):
         yield {"kind": "silent", "K": 2.0, "noise": False, "frames": [[o, t] for o in (33, 129, 257, 385, 513, 641)]}
     for what in ("ping", "gettime", "discreq"):
         for noise in (False, True):
+            for login in (False, True):
+                yield {"kind": "early", "noise": noise, "login": login, "trailer": [what], "cuts": []}
+                yield {"kind": "early", "noise": noise, "login": login, "trailer": ["ping", "gettime", what], "cuts": [3, 9]}
             yield {"kind": "history", "noise": noise, "ops": [{"op": "sub", "id": "c0", "types": [26], "script": []}, {"op": "peer", "what": what}, {"op": "msg", "type": 26, "payload": {"key": 3}}, {"op": "peer", "what": "ping"}]}
